@@ -70,7 +70,9 @@ type BuildOpts struct {
 	//   0 = off (every value is used once);
 	//   1 = the twin is constructed first, then the real one;
 	//   2 = the real one is constructed, then the twin, then the real one is compiled;
-	//   3 = the real one is constructed and compiled, then the twin is constructed and compiled.
+	//   3 = the real one is constructed and compiled, then the twin is constructed and compiled;
+	//   4 = no twin: the root object itself is compiled twice, the FIRST runnable is run;
+	//   5 = no twin: the root object itself is compiled twice, the SECOND runnable is run.
 	// Appending one ChainBranch / Parallel / Lambda to several chains is ordinary use of the builder API: what a
 	// compiled object does must not depend on what else was built from the same parts.
 	Reuse int
@@ -516,9 +518,18 @@ func Build(ctx context.Context, c *Case, o BuildOpts) (*Built, error) {
 	if err != nil {
 		return nil, err
 	}
-	if o.Reuse == 3 {
+	switch o.Reuse {
+	case 3:
 		if twin, terr := b.anyGraph(0, nil); terr == nil {
 			_, _ = compileRoot(twin)
+		}
+	case 4, 5:
+		r2, err2 := compileRoot(ag)
+		if err2 != nil {
+			return nil, fmt.Errorf("second Compile of the same object: %w", err2)
+		}
+		if o.Reuse == 5 {
+			r = r2
 		}
 	}
 	return &Built{R: r, Rec: b.rec}, nil
